@@ -62,6 +62,7 @@ inductive Rule where
   | iteSimplify
   | connectiveDef
   | subproof
+  | congRule
   deriving DecidableEq, Repr
 
 def Rule.ofName : String → Option Rule
@@ -118,6 +119,7 @@ def Rule.ofName : String → Option Rule
   | "verit_ite_simplify" => some .iteSimplify
   | "verit_connective_def" => some .connectiveDef
   | "verit_subproof" => some .subproof
+  | "verit_cong" => some .congRule
   | _ => none
 
 def Rule.name : Rule → String
@@ -174,8 +176,9 @@ def Rule.name : Rule → String
   | .iteSimplify => "verit_ite_simplify"
   | .connectiveDef => "verit_connective_def"
   | .subproof => "verit_subproof"
+  | .congRule => "verit_cong"
 
-def Rule.all : List Rule := [.notOr, .notAnd, .andRule, .orRule, .impliesRule, .notImplies1, .notImplies2, .equiv1, .equiv2, .notEquiv1, .notEquiv2, .ite1, .ite2, .notIte1, .notIte2, .contraction, .notNot, .andPos, .andNeg, .orPos, .orNeg, .impliesPos, .impliesNeg1, .impliesNeg2, .equivPos1, .equivPos2, .equivNeg1, .equivNeg2, .xorPos1, .xorPos2, .xorNeg1, .xorNeg2, .itePos1, .itePos2, .iteNeg1, .iteNeg2, .falseRule, .thResolution, .eqReflexive, .laDisequality, .laRwEq, .eqTransitive, .transRule, .eqCongruent, .notSimplify, .andSimplify, .orSimplify, .impliesSimplify, .equivSimplify, .boolSimplify, .iteSimplify, .connectiveDef, .subproof]
+def Rule.all : List Rule := [.notOr, .notAnd, .andRule, .orRule, .impliesRule, .notImplies1, .notImplies2, .equiv1, .equiv2, .notEquiv1, .notEquiv2, .ite1, .ite2, .notIte1, .notIte2, .contraction, .notNot, .andPos, .andNeg, .orPos, .orNeg, .impliesPos, .impliesNeg1, .impliesNeg2, .equivPos1, .equivPos2, .equivNeg1, .equivNeg2, .xorPos1, .xorPos2, .xorNeg1, .xorNeg2, .itePos1, .itePos2, .iteNeg1, .iteNeg2, .falseRule, .thResolution, .eqReflexive, .laDisequality, .laRwEq, .eqTransitive, .transRule, .eqCongruent, .notSimplify, .andSimplify, .orSimplify, .impliesSimplify, .equivSimplify, .boolSimplify, .iteSimplify, .connectiveDef, .subproof, .congRule]
 
 /-- `eval` of the macro registered under the rule name; `sizes` is only read by resolution -/
 def evalRule : Rule → List Tm → List Nat → List Seq → Except Err Seq
@@ -232,6 +235,7 @@ def evalRule : Rule → List Tm → List Nat → List Seq → Except Err Seq
   | .iteSimplify, cl, _, _ => Holpy.C18.iteSimplify cl
   | .connectiveDef, cl, _, _ => Holpy.C18.connectiveDef cl
   | .subproof, cl, _, ps => Holpy.C18.subproof cl ps
+  | .congRule, cl, _, ps => Holpy.C18.congRule cl ps
 
 /-- the goal of a simplification rule `lhs <--> rhs` is `equals` at type bool -/
 def goalIsIff : List Tm → Bool
@@ -242,6 +246,19 @@ def notFoEq : Tm → Bool
   | mkEq _ _ => false
   | _ => true
 
+def notDisj : Tm → Bool
+  | mkOr _ _ => false
+  | _ => true
+
+def isConnective : Tm → Bool
+  | mkNot _ => true
+  | mkAnd _ _ => true
+  | mkOr _ _ => true
+  | mkImp _ _ => true
+  | mkIff _ _ => true
+  | mkXor _ _ => true
+  | _ => false
+
 /-- What well-typedness of the instance gives and the model cannot see: in `not_equiv2` and
 `equiv_neg1` the equivalence is `equals` at type bool (its sides are clause literals). -/
 def wellKinded : Rule → List Tm → List Seq → Bool
@@ -250,6 +267,16 @@ def wellKinded : Rule → List Tm → List Seq → Bool
   | .orSimplify, cl, _ => goalIsIff cl
   | .impliesSimplify, cl, _ => goalIsIff cl
   | .boolSimplify, cl, _ => goalIsIff cl
+  | .congRule, cl, ps =>
+    -- NOT implied by well-typedness: either all premises are first-order equalities (and both sides have the
+    -- same number of arguments), or the goal is an equivalence between two formulas built by a connective
+    -- (then premises may be equivalences).  Left out: an uninterpreted function applied to Boolean arguments
+    -- that are rewritten by `<-->` premises.
+    (match goalEq cl, destEqs (ps.map (·.prop)) with
+     | some (_, l, r), some es =>
+       (es.all (fun e => e.1 == 7) && (args l).length == (args r).length) ||
+       (goalIsIff cl && isConnective l && isConnective r)
+     | _, _ => true)
   | .iteSimplify, cl, _ => goalIsIff cl || (match goalEq cl with     -- an if-then-else at another type: a case that holds at every type
     | some (_, l, r) => compareIteEv l r || compareIteEv r l
     | none => true)
